@@ -168,6 +168,7 @@ class Monitor:
             "wall_s": round(time.time() - self.t0, 2),
             "violations": len(self.violations),
         }
+        _validate(ev, extra_cov)
         # XGIMON_EVIDENCE_DIR: used by the self-validation only, so that runs against a mutant never
         # overwrite the evidence of the real tree
         evdir = os.environ.get("XGIMON_EVIDENCE_DIR") or os.path.join(env.VERIF, "evidence")
@@ -206,6 +207,26 @@ class Monitor:
             f"wall={ev['wall_s']}s"
         )
         return code
+
+
+def _validate(ev, extra_cov):
+    """Evidence must validate against /root/.vp/EVIDENCE.schema.json; a check-specific extra key that breaks the
+    schema (wrong type for a reserved name) is moved under coverage['extra'] as text instead of invalidating the file."""
+    try:
+        import jsonschema
+
+        with open("/root/.vp/EVIDENCE.schema.json") as f:
+            schema = json.load(f)
+    except Exception:
+        return
+    try:
+        jsonschema.validate(json.loads(json.dumps(ev, default=str)), schema)
+    except jsonschema.ValidationError as exc:
+        cov = ev["coverage"]
+        for k in list(extra_cov or {}):
+            cov.pop(k, None)
+        cov["extra"] = short(extra_cov, 2000)
+        cov["evidence_schema_note"] = f"check-specific keys moved to 'extra': {exc.message[:200]}"
 
 
 COMMON_ASSUMPTIONS = [
